@@ -715,7 +715,7 @@ func cmdConc(args []string) {
 			end = len(results)
 		}
 		var b strings.Builder
-		b.WriteString("From Godi Require Import Base Conc.\n")
+		b.WriteString("From Coq Require Import NArith.\nFrom Godi Require Import Base Conc.\n")
 		for _, c := range results[start:end] {
 			if c.Crash != "" || c.Obs == nil {
 				continue
@@ -724,7 +724,7 @@ func cmdConc(args []string) {
 			if *prop == "C02" {
 				fn = "check_conc_C02"
 			}
-			fmt.Fprintf(&b, "Eval vm_compute in (%d, %s %s).\n", c.ID, fn, c.G())
+			fmt.Fprintf(&b, "Eval vm_compute in (%d%%N, %s %s).\n", c.ID, fn, c.G())
 		}
 		os.WriteFile(fmt.Sprintf("%s/cases_%s_%d.v", *out, tag, nfiles), []byte(b.String()), 0o644)
 		nfiles++
